@@ -20,31 +20,41 @@ def comment_texts(toks):
 
 
 def comment_signature(case, o, v):
-    """a run stuck at a comment: was a comment dropped, duplicated or moved, and in which layout"""
-    ci, co = comment_texts(o["in"]), comment_texts(o["out"])
-    what = "dropped" if len(co) < len(ci) else "duplicated" if len(co) > len(ci) else "moved"
-    # layout of the comment in the source: what follows it on the same line
+    """a run stuck at a comment: which comment was dropped / duplicated / moved, and what surrounds it in the source"""
+    from collections import Counter
     toks = o["in"]
-    idx = min(v["i"] - 1, len(toks) - 1)
-    while idx > 0 and not toks[idx].get("c"):
-        idx -= 1          # the comment nearest to the stuck position
-    end = idx
-    while end + 1 < len(toks) and toks[end + 1].get("c") and toks[end + 1]["k"] != "#Comment":
-        end += 1
+    ci, co = comment_texts(toks), comment_texts(o["out"])
+    heads = [n for n, t in enumerate(toks) if t["k"] == "#Comment"]
+    lost = list((Counter(ci) - Counter(co)).elements())
+    extra = list((Counter(co) - Counter(ci)).elements())
+    pos = min(v["i"] - 1, len(toks) - 1)
     text = case["text"].encode("utf-8")
-    stop = toks[end]["o"] + len(toks[end]["t"].encode("utf-8"))
-    rest = text[stop:].split(b"\n")[0].strip()
-    nxt = [t for t in toks[end + 1:] if not t.get("c")]
-    if nxt and nxt[0]["k"] == "TkSemicolon":
-        where = "before-semicolon"      # the comment sits between a statement and its `;` (also across a line end)
-    elif not rest:
-        where = "end-of-line"
+
+    def surroundings(idx):
+        end = idx
+        while end + 1 < len(toks) and toks[end + 1].get("c") and toks[end + 1]["k"] != "#Comment":
+            end += 1
+        before = [t for t in toks[:idx] if not t.get("c")]
+        after = [t for t in toks[end + 1:] if not t.get("c")]
+        stop = toks[end]["o"] + len(toks[end]["t"].encode("utf-8"))
+        rest = text[stop:].split(b"\n")[0].strip()
+        if (before and before[-1]["k"] == "TkSemicolon") or (after and after[0]["k"] == "TkSemicolon"):
+            return 0, "next-to-semicolon"       # between a statement and its `;`, or trailing an empty statement
+        if rest and not rest.startswith(b"--"):
+            return 1, "inline-before-code"      # `stat --[[ c ]] stat` on one line
+        return 2, "plain"
+
+    if lost:
+        what, cands = "dropped", [h for h, x in zip(heads, ci) if x in lost]
+    elif extra and any(x in ci for x in extra):
+        what, cands = "duplicated", [h for h, x in zip(heads, ci) if x in extra]
     else:
-        where = "before-code-on-same-line"
+        what, cands = "moved", sorted(heads, key=lambda h: abs(h - pos))[:2]
+    where = min(surroundings(h) for h in cands)[1] if cands else "plain"
     return "C05/comment-%s/%s" % (what, where)
 
 
-def signature(case, v, prev="", o=None):
+def signature(case, v, prev="", o=None, prev_is_comment=False):
     """mechanism key of a rejected run (what the automaton could not explain, not where)"""
     why = v["why"]
     if why != "stuck":
@@ -53,16 +63,8 @@ def signature(case, v, prev="", o=None):
     code_a, code_b = not a.get("c"), not b.get("c")
     if v.get("semiHazard"):
         return "C05/semicolon-dropped-before-paren"
-    if (a["k"] == "#Comment") != (b["k"] == "#Comment") and o is not None:
-        return comment_signature(case, o, v)
     if a["k"] == "#Unparsed":
         return "C05/unparsed-tail-dropped"
-    if code_a and a["k"] == "TkSemicolon" and cfg["keepSemi"]:
-        return "C05/semicolon-not-preserved/after-%s" % prev
-    if code_b and b["k"] == "TkSemicolon" and a["k"] != "TkSemicolon":
-        return "C05/semicolon-inserted-or-moved/after-%s" % prev
-    if code_a and a["k"] == "TkLeftParen" and cfg["parens"] == "Omit" and b["k"] in ("TkString", "TkLongString", "TkLeftBrace"):
-        return "C05/omit-parens-drops-arguments"
     if a["k"] == "#Comment" and b["k"] == "#Comment":
         # the doc sub-tree parses to another structure: key by the first node kind that differs
         x, y = a["t"], b["t"]
@@ -73,8 +75,17 @@ def signature(case, v, prev="", o=None):
             n -= 1
         ka, kb = x[n:].split("(")[0].split(")")[0], y[n:].split("(")[0].split(")")[0]
         return "C05/doc-structure-changed/%s->%s" % (ka or "end", kb or "end")
-    where = "doc" if (a.get("c") or b.get("c")) else "code"
-    return "C05/stuck/%s/%s->%s" % (where, a["k"], b["k"])
+    if not code_a and not code_b and a["k"] == b["k"]:
+        return "C05/comment-text-changed/%s" % a["k"]
+    if (not code_a or not code_b) and o is not None:
+        return comment_signature(case, o, v)
+    if code_a and a["k"] == "TkSemicolon" and cfg["keepSemi"]:
+        return "C05/semicolon-not-preserved/after-%s" % ("comment" if prev_is_comment else prev)
+    if code_b and b["k"] == "TkSemicolon" and a["k"] != "TkSemicolon":
+        return "C05/semicolon-inserted-or-moved/after-%s" % prev
+    if code_a and a["k"] == "TkLeftParen" and cfg["parens"] == "Omit" and b["k"] in ("TkString", "TkLongString", "TkLeftBrace"):
+        return "C05/omit-parens-drops-arguments"
+    return "C05/stuck/code/%s->%s" % (a["k"], b["k"])
 
 
 def run(ctx):
@@ -109,7 +120,8 @@ def run(ctx):
         if v["why"] == "stuck":
             code = [t for t in o["in"][: v["i"] - 1] if not t.get("c")]
             prev = code[-1]["k"] if code else "start"
-        found.setdefault(signature(c, v, prev, o), []).append({
+        pic = v["why"] == "stuck" and 2 <= v["i"] <= len(o["in"]) + 1 and bool(o["in"][v["i"] - 2].get("c"))
+        found.setdefault(signature(c, v, prev, o, pic), []).append({
             "src": c["src"], "cfg": c["cfg"], "verdict": {k: v[k] for k in v if k != "id"},
             "source_near": _fmt.snippet(c["text"], a_off, 120), "output_near": _fmt.snippet(o["out_text"], b_off, 120),
             "text": c["text"] if len(c["text"]) < 600 else None})
